@@ -167,6 +167,13 @@ def run_check(prop, tier, seed, replay):
             finish(prop, tier, seed, t0, lean, n_obl, n_dis, [], 1, {}, scan)
             return 1
 
+    reduced = core.HARNESS_MODE == "reduced"
+    if reduced:
+        payload = {"kind": "harness-build-failed", "property": prop,
+                   "what": "the harness does not compile against this tree with its Cache-trait wrappers (recording cache, gate-controlled caches): "
+                           "the policy and sched suites cannot run, so that part of the correspondence is not checked; the remaining suites were run "
+                           "with a harness built without them", "log": blog[-6000:]}
+        problems.append(("correspondence", payload["what"], payload, False))
     runs = []
     hang = None
     # c. corpus / replay
@@ -182,7 +189,7 @@ def run_check(prop, tier, seed, replay):
         for cf in sorted(glob.glob(os.path.join(ROOT, "corpus", prop, "*.ops"))):
             name = os.path.basename(cf)[:-4]
             runs.append((f"corpus/{name}", core.run_harness("replay", os.path.join(work, f"corpus-{name}"), {"ops": cf})))
-        for cf in sorted(glob.glob(os.path.join(ROOT, "corpus", prop, "*.sched"))):
+        for cf in ([] if reduced else sorted(glob.glob(os.path.join(ROOT, "corpus", prop, "*.sched")))):
             name = os.path.basename(cf)[:-6]
             runs.append((f"corpus/{name}", core.run_harness("sched", os.path.join(work, f"corpus-{name}"), {"ops": cf})))
         for cf in sorted(glob.glob(os.path.join(ROOT, "corpus", prop, "*.srv"))):
@@ -190,6 +197,8 @@ def run_check(prop, tier, seed, replay):
             runs.append((f"corpus/{name}", core.run_harness("server", os.path.join(work, f"corpus-{name}"), {"ops": cf})))
         # d. suites
         for n, (suite, args) in enumerate(cfg["suites"][tier]):
+            if reduced and suite in ("policy", "sched"):
+                continue
             a = dict(args)
             a["seed"] = seed * 1000 + n
             if suite == "config":
